@@ -13,6 +13,12 @@ try:  # kill -USR1 <pid> prints where a check is (diagnosing a check that does n
     import faulthandler
     import signal
     faulthandler.register(signal.SIGUSR1, all_threads=True)
+
+    def _where(signum, frame):   # kill -USR2 <pid>: the outermost frames (faulthandler shows only the innermost 100)
+        import traceback
+        sys.stderr.write("".join(traceback.format_stack(frame)[:16]) + "\n")
+        sys.stderr.flush()
+    signal.signal(signal.SIGUSR2, _where)
 except Exception:
     pass
 
